@@ -397,6 +397,9 @@ def _bounded_by_constants(lib, cm, body, op, depth=0, seen=None):
                 b_ = _bounded_by_constants(lib, cm, body, tr.origin[2]["args"][1], depth + 1, seen)
                 return (a[0] or b_[0]), a[1] + b_[1]
             return _bounded_by_constants(lib, cm, body, tr.origin[2]["args"][0], depth + 1, seen)
+        # `x.checked_sub(y).filter(|&n| n > 0)`: a filter keeps the value or drops it
+        if f.get("def") in ("std::option::Option::<T>::filter",) and tr.origin[2]["args"]:
+            return _bounded_by_constants(lib, cm, body, tr.origin[2]["args"][0], depth + 1, seen)
     if tr.origin[0] == "rvalue":
         rv = tr.origin[1]["rv"]
         if rv["k"] == "cast":
